@@ -536,7 +536,7 @@ def run(ctx):
     import resource
     old_as = resource.getrlimit(resource.RLIMIT_AS)
     try:
-        pass
+        resource.setrlimit(resource.RLIMIT_AS, (8 * 2 ** 30, old_as[1]))
     except Exception:
         pass
     dyn_deadline = t_dyn + (55.0 if not ctx.thorough else 700.0)
@@ -545,6 +545,10 @@ def run(ctx):
             f = getattr(bct, nm)
             sig = inspect.signature(f)
             fams, build = S.get(nm, (ALLFAM, None))
+            if not sig.parameters:
+                # nothing can be passed, so nothing can be modified (make_motif34lib: also regenerates a 1 MB library, slowly)
+                not_ex[nm] = 'takes no arguments'
+                continue
             if nm not in S:
                 nreq = len([p for p in sig.parameters.values() if p.default is inspect._empty and p.kind in (p.POSITIONAL_ONLY, p.POSITIONAL_OR_KEYWORD)])
                 build = one if nreq == 1 else generic_builder(sig)
@@ -617,7 +621,7 @@ def run(ctx):
                             shared[nm] = shared.get(nm, 0) + 1
                             if not fd['ret_t']:
                                 ctx.mismatch(nm + ':result-shares-memory', 'result %s shares memory with %s but the model says the result is fresh' % hit[0], case, False, True)
-            if exercised.get(nm, 0) == 0:
+            if exercised.get(nm, 0) == 0 and time.time() <= dyn_deadline:
                 not_ex[nm] = 'no argument could be built'
     scipy.io.savemat = real_savemat
     try:
@@ -651,6 +655,9 @@ def run(ctx):
                 ctx.mismatch(nm + ':static-may-mutate-copy-false', 'the checker rejects %s under copy=False (%s) but no run changed an argument' % (nm, why[:3]), {'fn': nm, 'blame': why[:5]})
         if nm in dyn_mut_cf and not fd['mut_f']:
             ctx.mismatch(nm + ':translator-unsound', 'copy=False changed an argument that the model says is never written', dyn_mut_cf[nm], 'pure', 'mutates')
+    for nm in dyn_public:
+        if not exercised.get(nm) and nm not in not_ex:
+            not_ex[nm] = 'time budget of the tier exhausted before this function'
     never_ok = sorted(nm for nm in dyn_public if exercised.get(nm) and not completed.get(nm))
     ctx.extra['dynamic'] = {
         'public_functions': len(dyn_public), 'exercised': len([n for n in dyn_public if exercised.get(n)]),
